@@ -615,7 +615,7 @@ def run(chk):
     workdir = os.path.join(common.CACHE, "work")
     os.makedirs(workdir, exist_ok=True)
     out = Outcome()
-    n_hist = 360 if thorough else 40
+    n_hist = 1200 if thorough else 40
     # VERIF_C14_SKIP_CORPUS=1 is for self-tests of the generators only (tools/mutcheck): registered runs always start with the corpus
     corpus = [] if os.environ.get("VERIF_C14_SKIP_CORPUS") else load_corpus()
     hists = corpus + [g_hist.gen_history(rng) for _ in range(n_hist)]
